@@ -3,7 +3,7 @@
    report.BuildSentryReport for a non-nil error (for nil the Go function returns
    nothing before doing anything: the runner prints "none"). *)
 From Errv Require Import Base.Str Redact.Markers Redact.Buffer Model.Err Model.Sem Model.Details Model.Marks
-     Model.Access Model.Report Proofs.ReportFacts.
+     Model.Access Model.Report Model.Codec Proofs.ReportFacts Proofs.StackFacts.
 
 (* the message begins with [file:line: ] + the redacted verbose rendering + the
    composition header *)
@@ -42,6 +42,19 @@ Theorem C15_types : forall e,
   rp_types (build_report e) = List.concat (List.map type_line (rev (visit_all e))).
 Proof. exact report_types. Qed.
 Print Assumptions C15_types.
+
+(* decoded errors: the frames re-parsed from the printed stack are the captured ones,
+   and the source prefix of the message comes from the same first frame *)
+Theorem C15_decoded_frames : forall p i st c n,
+  forallb frame_ok st = true -> st <> [] ->
+  get_reportable_stack (fst (hop p (Wrap i (WStack st) c) n)) = Some (List.map frame_of (List.rev st)).
+Proof. exact stack_hop_frames. Qed.
+Print Assumptions C15_decoded_frames.
+
+Theorem C15_decoded_source : forall f r,
+  frame_ok f = true -> source_of_printed (print_stack (f :: r)) = source_of_frame f.
+Proof. exact source_of_printed_stack. Qed.
+Print Assumptions C15_decoded_source.
 
 Example C15_example :
   let st := [mkframe 1 (lit "main.f") (lit "/a/b.go") 12] in
